@@ -118,6 +118,7 @@ type interpreter struct {
 	timers       []*vtimer
 	now          vtime
 	fresh        int
+	inited       map[*ssa.Package]bool
 	schedPos     int
 	preempts     int
 }
@@ -587,6 +588,17 @@ func callSSA(i *interpreter, caller *frame, callpos token.Pos, fn *ssa.Function,
 	if fn.TypeParams().Len() > 0 && len(fn.TypeArgs()) == 0 {
 		unsupported("uninstantiated generic %s", fn)
 	}
+	// lazy package initialisation (leaf library packages only run their init when first used)
+	if fn.Pkg != nil && !i.inited[fn.Pkg] {
+		i.inited[fn.Pkg] = true
+		if fn.Synthetic != "package initializer" && i.cfg.InitAllowed(fn.Pkg.Pkg.Path()) {
+			if f := fn.Pkg.Func("init"); f != nil {
+				saved := i.curInstr
+				call(i, nil, token.NoPos, f, nil)
+				i.curInstr = saved
+			}
+		}
+	}
 	i.res.Funcs[fn] = struct{}{}
 	if i.cfg.Trace {
 		fmt.Fprintf(os.Stderr, "g%d: enter %s\n", i.cur.id, fn)
@@ -757,6 +769,7 @@ func Execute(cfg *Config, entry *ssa.Function) *Result {
 		finished: make(chan struct{}),
 		mutexes:  map[*value]*mutexState{},
 		side:     map[interface{}]interface{}{},
+		inited:   map[*ssa.Package]bool{},
 	}
 	i.res = &Result{TB: i.tb, Funcs: map[*ssa.Function]struct{}{}}
 	i.now = vtime{sec: int64(unixToInternal + 1_600_000_000), nsec: int64(0)}
@@ -791,7 +804,11 @@ type closureEntry struct {
 func (i *interpreter) runEntry(e *closureEntry) {
 	for _, p := range i.cfg.InitPkgs {
 		if f := p.Func("init"); f != nil {
+			s0 := i.steps
 			call(i, nil, token.NoPos, f, nil)
+			if i.cfg.Trace {
+				fmt.Fprintf(os.Stderr, "init %s: %d steps\n", p.Pkg.Path(), i.steps-s0)
+			}
 		}
 	}
 	call(i, nil, token.NoPos, e.entry, nil)
